@@ -1144,7 +1144,7 @@ def _eval_test(test, assign) -> bool:
     return assign[src] if pol else not assign[src]
 
 
-def tables_equivalent(e1, e2, max_atoms: int = 12):
+def tables_equivalent(e1, e2, max_atoms: int = 12, leaf_equal=None):
     """Do two conditional-expression trees pick the same leaf (same source text) under every truth assignment of their atomic tests?
     Returns (True, None) or (False, counter-example) or (None, reason) when there are too many atoms."""
     import itertools
@@ -1169,6 +1169,6 @@ def tables_equivalent(e1, e2, max_atoms: int = 12):
     for bits in itertools.product((False, True), repeat=len(atoms)):
         assign = dict(zip(atoms, bits))
         a, b = leaf(t1, assign), leaf(t2, assign)
-        if a != b:
+        if a != b and not (leaf_equal is not None and leaf_equal(a, b, assign)):
             return False, {"when": {k: v for k, v in assign.items()}, "got": a[:120], "expected": b[:120]}
     return True, None
